@@ -327,3 +327,18 @@ Proof. exact (@byaxis_in_spec R _). Qed.
 Theorem element_default_options : forall v (S : obj R) (i : inp),
   element_opt v None true S i = element v S i.
 Proof. exact (@element_opt_default R _). Qed.
+
+(* ================================================================ element indexing (basic indices)
+   C20/Indexing.v (NumpyTensor.__getitem__, DiscretizedSpaceElement.__getitem__), tied by the
+   correspondence on values, result space and error class. *)
+From Verif Require Import C20.Indexing.
+Theorem element_index_drops_one_axis_per_int : forall (idx : list idx1) (shape sh : list Z),
+  index_shape shape idx = Ok sh -> (List.length sh + n_ints idx = List.length shape)%nat.
+Proof. exact index_shape_ndim. Qed.
+Theorem element_index_result_space : forall (t : tsp R) data idx t' d,
+  tens_getitem t data idx = Ok (GTens t' d) ->
+  index_shape (ts_shape t) idx = Ok (ts_shape t') /\ ts_dtype t' = ts_dtype t /\
+  d = index_data (ts_shape t) idx data /\
+  (is_numeric (ts_dtype t) = true -> (forall k i e, ts_w t <> WArray k i e) -> ts_w t' = ts_w t).
+Proof. exact (@tens_getitem_space R _). Qed.
+Print Assumptions element_index_result_space.
